@@ -335,15 +335,15 @@ func (in *Interp) installConcStubs() {
 		in.call(f.fn, nil, f.binds)
 		return nil
 	}
-	ld := func(in *Interp, fn *ssa.Function, a []Value) Value { return a[0].(PtrV).loc.v }
-	st := func(in *Interp, fn *ssa.Function, a []Value) Value { a[0].(PtrV).loc.v = a[1]; return nil }
+	ld := func(in *Interp, fn *ssa.Function, a []Value) Value { return a[0].(PtrV).loc.get() }
+	st := func(in *Interp, fn *ssa.Function, a []Value) Value { a[0].(PtrV).loc.set(a[1]); return nil }
 	for _, k := range []string{"Uint32", "Uint64", "Int32", "Int64"} {
 		S["sync/atomic.Load"+k] = ld
 		S["sync/atomic.Store"+k] = st
 		S["sync/atomic.Add"+k] = func(in *Interp, fn *ssa.Function, a []Value) Value {
 			l := a[0].(PtrV).loc
-			l.v = BinBV("bvadd", l.v.(*Term), a[1].(*Term))
-			return l.v
+			l.set(BinBV("bvadd", l.get().(*Term), a[1].(*Term)))
+			return l.get()
 		}
 	}
 }
